@@ -3,4 +3,5 @@ import Cgm.E2E.C10
 import Cgm.E2E.C10b
 import Cgm.E2E.C10g
 import Cgm.E2E.C10h
+import Cgm.E2E.C10i
 #audit_namespace Cg.E2E.C10
